@@ -54,6 +54,7 @@ type termPlan struct {
 	SecondSignalMs      int    `json:"second_signal_after_ms"`
 	SinkStalls          bool   `json:"message_queue_sink_stops_reading_before_the_signal"`
 	Mirror              bool   `json:"ipfix_and_sflow_mirroring_enabled"`
+	Ballast             int    `json:"further_templates_per_exporter"` // a large site: the cache files reach several MiB
 }
 
 type termWitness struct {
@@ -476,6 +477,37 @@ func runTermPlan(run *mon.Run, p termPlan, dir string, st *termStats) {
 					snd.send(e.IP, ports[proto], e.TplD[proto])
 				}
 			}
+			if p.Ballast > 0 && cycle == 0 {
+				// every exporter announces p.Ballast further templates of 25 fields (ids 300..): nothing is sent for
+				// them, they only make the saved cache the size it has at a site with thousands of templates
+				oo := o
+				oo.MaxFields, oo.OnlyPEN0, oo.Options = 25, true, false
+				for ei, e := range exps[from:] {
+					for _, proto := range []string{"ipfix", "nf9"} {
+						oo.Varlen = proto == "ipfix"
+						for b := 0; b < p.Ballast; b += 12 {
+							var ts []*wire.Template
+							for j := b; j < b+12 && j < p.Ballast; j++ {
+								var t *wire.Template
+								for {
+									t = wire.GenTemplate(g, uint16(300+j), oo)
+									if len(t.All()) >= 22 {
+										break
+									}
+								}
+								t.Fields, t.Scope, t.Options = t.All(), nil, false
+								ts = append(ts, t)
+							}
+							set := wire.Set{Kind: wire.SetTemplate, Templates: ts}
+							d, _ := wire.EncodeFlow(proto, []uint32{1, 2, 3, 4}, []wire.Set{set})
+							snd.send(e.IP, ports[proto], d)
+						}
+					}
+					if ei%10 == 9 {
+						time.Sleep(2 * time.Millisecond)
+					}
+				}
+			}
 			time.Sleep(20 * time.Millisecond)
 			for _, e := range exps[from:] {
 				for _, proto := range []string{"ipfix", "nf9"} {
@@ -779,6 +811,9 @@ func termMain(args mon.Args) {
 	for i := 0; i < run.Pick(2, 8); i++ {
 		plans = append(plans, termPlan{Index: 900 + i, Seed: run.Seed, Shape: "burst", When: "after-ack", Signal: []string{"TERM", "INT"}[i%2], Cycles: 2, Exporters: 10, Workers: 4, SinkStalls: true})
 	}
+	for i := 0; i < run.Pick(1, 4); i++ {
+		plans = append(plans, termPlan{Index: 950 + i, Seed: run.Seed, Shape: "burst", When: "after-ack", Signal: "TERM", Cycles: 2, Exporters: 120, Workers: 8, Ballast: 24})
+	}
 	for i := 0; i < run.Pick(3, 0); i++ {
 		plans = append(plans, termPlan{Index: 2000 + i, Seed: run.Seed, Shape: "flood", When: "after-ack", Signal: "TERM", Cycles: 2, Exporters: 60, Workers: 2, Delay: 3000000})
 	}
@@ -844,7 +879,7 @@ func termMain(args mon.Args) {
 	if st.decodedAfterRestart == 0 && args.Replay == "" {
 		run.HarnessError("no acknowledged template was ever probed after a restart: the monitor observed nothing")
 	}
-	run.SetRule("the real vflow binary with private ports/pid/cache files and a TCP sink (rawSocket producer); exporters emulated from 127.x.y.z source addresses. Plans enumerate traffic shape {idle, steady, burst of template announcements from 1-500 exporters, flood with 1 worker} × signal time {after acknowledgement, mid-burst, during start-up} × {SIGTERM, SIGINT} × 2-4 stop/start cycles on the same files × elements file installed or not × restart under continuing traffic × mirroring on in the plans whose traffic continues across the signal, plus plans in which every exporter re-announces a much smaller template in later cycles (the saved cache shrinks), plans in which the signal is repeated 50-700 ms into the shutdown, and plans in which the message-queue sink stops reading before the signal so that decoded messages are still queued behind a blocked producer; thorough adds the race-built binary and strace recvfrom delay injection (3 s) that stalls the read loop across the shutdown window. Oracles: exit status 0, no panic/fatal on stderr, exit within 10 s, both cache files complete JSON and loadable with every template whose data had been seen at the sink before the signal, and after the restart data sent WITHOUT templates for every such (exporter,template) is published and equals the stand-alone decode. distinct = plan descriptor")
+	run.SetRule("the real vflow binary with private ports/pid/cache files and a TCP sink (rawSocket producer); exporters emulated from 127.x.y.z source addresses. Plans enumerate traffic shape {idle, steady, burst of template announcements from 1-500 exporters, flood with 1 worker} × signal time {after acknowledgement, mid-burst, during start-up} × {SIGTERM, SIGINT} × 2-4 stop/start cycles on the same files × elements file installed or not × restart under continuing traffic × mirroring on in the plans whose traffic continues across the signal, plus plans in which every exporter re-announces a much smaller template in later cycles (the saved cache shrinks), plans in which the signal is repeated 50-700 ms into the shutdown, plans in which 120 exporters announce 24 further 25-field templates each so that the cache files reach several MiB, and plans in which the message-queue sink stops reading before the signal so that decoded messages are still queued behind a blocked producer; thorough adds the race-built binary and strace recvfrom delay injection (3 s) that stalls the read loop across the shutdown window. Oracles: exit status 0, no panic/fatal on stderr, exit within 10 s, both cache files complete JSON and loadable with every template whose data had been seen at the sink before the signal, and after the restart data sent WITHOUT templates for every such (exporter,template) is published and equals the stand-alone decode. distinct = plan descriptor")
 	run.Assume("'within a few seconds' = 10 s (the one wall-clock verdict: the property is about wall-clock time); signals are sent only after the collector has bound its sockets (a signal before signal.Notify kills any program)")
 	run.Assume("'acknowledged' = a data message using that template was already seen at the sink before the signal was sent")
 	run.Finish()
